@@ -256,7 +256,7 @@ def exc_code(e):
 
 
 def in_model(kind, case):
-    return case[0] not in (102, 104)
+    return case[0] not in (102, 103, 104)
 
 
 def impl(case):
@@ -264,6 +264,9 @@ def impl(case):
         import c11_atomic
         f = c11_atomic.replay(case)
         return [0, []] if f is None else [1, [f["what"]]]
+    if case[0] == 103:  # replay of one B-tree snapshot-isolation run
+        f = c11_immut.replay_isolation(case)
+        return [0, []] if f is None else [1, [f["what"] + " version %s after commit %s" % (f["version"], f["after_commit"])]]
     if case[0] == 102:  # replay of one reported immutability failure
         fs = c11_immut.replay(case)
         return [len(fs), [f["what"] + " " + " ".join(f.get("args", [])) for f in fs[:5]]]
@@ -464,9 +467,9 @@ def oracle(ctx, kind, case, out):
     if isinstance(out, Err):
         fail("history runner failed: " + out.text, -1)
         return F
-    if case[0] in (102, 104):
+    if case[0] in (102, 103, 104):
         if out[0]:
-            fail(("immutability: " if case[0] == 102 else "reader() atomicity: ") + "; ".join(x.decode("latin-1") if isinstance(x, bytes) else str(x) for x in out[1]), -1)
+            fail(("immutability: " if case[0] == 102 else "snapshot isolation: " if case[0] == 103 else "reader() atomicity: ") + "; ".join(x.decode("latin-1") if isinstance(x, bytes) else str(x) for x in out[1]), -1)
         return F
     zk, ops = case
     history = [1]              # every id ever committed, in order
